@@ -22,15 +22,20 @@ LEVEL = "exploration"
 TECHNIQUE = "small-scope exhaustive enumeration of header values, dump -> parse round trip and normal form"
 DESIGN_REF = "DESIGN.md §4 C06"
 RULE = (
-    "values = all strings of <= 3 atoms over {a B SP \" \\ , ; = * ' % e-acute TAB %22 W/} and every BMP code point "
-    "(minus CR/LF/surrogates) in 3 contexts, through quote/list/dict/options/set; lists of <= 3 and dicts of <= 2 "
-    "values with token keys; all strong/weak subsets of 8 etags; every list of <= 3 closed ranges over 0..5 with "
-    "every open/suffix tail, 2 units; every valid content range <= 6; If-Range etags and dates; every single and "
-    "pair of typed cache-control directives for both classes; CSP maps <= 2; a date grid (6 years x 12 months x "
-    "5 days x 3 times x 9 zones, plus every 15-minute offset); ages; Basic credentials <= 2 atoms each side; token "
-    "and parameter schemes; raw header strings <= 3 atoms for the normal-form law. "
-    "non-trivial = distinct (family, value) whose serialisation differs from the plain value text (quoting, "
-    "escaping, encoding, several members, zone conversion)."
+    "values = all strings of <= 4 atoms (5 thorough) over {a B SP \" \\ , ; = * ' % e-acute TAB %22 W/}, <= 5 (7) "
+    "over the 8 critical atoms, every BMP code point (minus CR/LF/surrogates) in 3 contexts and injection-shaped "
+    "values, through quote / list / dict / options / set; pairs of values 2x2 and 3x1 (thorough 3x3), triples 1x1x1 "
+    "(2x2x1 in every position), dicts with token keys and bare keys; all strong/weak subsets of 8 etags and single "
+    "etags <= 2 (3) atoms weak and strong; every list of <= 3 closed ranges over 0..5 with every open/suffix tail, 2 "
+    "units; every valid content range <= 6; If-Range etags, dates and the empty value; every single, ordered pair and "
+    "ordered triple of typed cache-control directives (5 int values incl. negative, 7 str values) for both classes; "
+    "every CSP directive property x 8 values, pairs over all directives (triples thorough); a date grid (6 years x 12 "
+    "months x 5 days x 3 times x 9 zones, every 15-minute offset, every day of 2 (5) years, date objects); ages; Basic "
+    "credentials <= 2 atoms each side; token and parameter schemes with <= 3 parameters (values <= 2 atoms thorough); "
+    "normal-form law on raw text: generic headers <= 3 (4) atoms incl. RFC 2231 charset / continuation forms, and per-"
+    "grammar raw headers (Range, Content-Range, dates in 3 formats with zones, Age, If-Range, Authorization / "
+    "WWW-Authenticate, Cache-Control, CSP) <= 3-4 (4-5) atoms of the parser's own tokens. non-trivial = distinct "
+    "(family, value) whose serialisation differs from the plain value text (kept as a set for the quick-sized layers)."
 )
 ASSUMPTIONS = [
     "strings are over a 15-atom alphabet up to 3 atoms, other code points only one at a time in fixed contexts",
@@ -174,6 +179,23 @@ def _cc_expect(v):
     return (d, tuple(props))
 
 
+_CSP_NAMES = None
+
+
+def _csp_prop_names():
+    global _CSP_NAMES
+    if _CSP_NAMES is None:
+        _CSP_NAMES = [n for n in sorted(dir(ContentSecurityPolicy))
+                      if isinstance(getattr(ContentSecurityPolicy, n, None), property)]
+    return _CSP_NAMES
+
+
+def _csp_expect(v):
+    """every typed property reads the directive its name spells (underscores for dashes), stated from the map alone"""
+    d = dict(v)
+    return (tuple(v), tuple((n, d.get(n.replace("_", "-"))) for n in _csp_prop_names()))
+
+
 def _mk_auth(v):
     cls, typ, params, token = v
     c = Authorization if cls == "A" else WWWAuthenticate
@@ -182,6 +204,8 @@ def _mk_auth(v):
 
 def _mk_ifrange(v):
     kind, x = v
+    if kind == "none":
+        return IfRange()
     return IfRange(etag=x) if kind == "etag" else IfRange(date=_dt(x))
 
 
@@ -214,13 +238,15 @@ CODECS = {
     "cache-control[Response]": (_mk_cc, lambda c: c.to_header(),
                                 lambda h: http.parse_cache_control_header(h, None, ResponseCacheControl), _cc_view),
     "csp": (lambda v: ContentSecurityPolicy(list(v)), lambda c: c.to_header(), http.parse_csp_header,
-            lambda c: (tuple(c.items()), c.default_src, c.script_src, c.img_src, c.sandbox)),
+            lambda c: (tuple(c.items()), tuple((n, getattr(c, n)) for n in _csp_prop_names()))),
     "date": (_dt, http.http_date, http.parse_date, lambda x: None if x is None else _aware(x)),
     "timestamp": (_id, http.http_date, http.parse_date,
                   lambda x: _aware(x) if isinstance(x, dtm.datetime) else
                   (None if x is None else dtm.datetime.fromtimestamp(x, dtm.timezone.utc))),
     "age": (lambda v: dtm.timedelta(seconds=v[1]) if v[0] == "td" else v[1], http.dump_age, http.parse_age,
             lambda x: x if isinstance(x, dtm.timedelta) or x is None else dtm.timedelta(seconds=x)),
+    "etag-single": (_id, lambda v: http.quote_etag(v[0], v[1]), http.unquote_etag, tuple),
+    "date-object": (lambda v: dtm.date(*v), http.http_date, http.parse_date, lambda x: x),
     "authorization": (_mk_auth, lambda a: a.to_header(), Authorization.from_header, _auth_view),
     "www-authenticate": (_mk_auth, lambda a: a.to_header(), WWWAuthenticate.from_header, _auth_view),
 }
@@ -269,20 +295,51 @@ def apply_law(fam, v, lenient_none=False, ambiguous=False):
     return "ok", {"header": h1}
 
 
+class U:
+    """Per-unit accumulators (flushed into the recorder once per unit: the deep layers make ~10^8 calls)."""
+    n = 0
+    used: set = set()
+    outcomes: set = set()
+    track = True          # keep the distinct non-trivial set (quick-sized layers only; memory)
+    untracked = 0
+
+    @classmethod
+    def reset(cls, track=True):
+        cls.n = 0
+        cls.used = set()
+        cls.outcomes = set()
+        cls.track = track
+        cls.untracked = 0
+
+    @classmethod
+    def flush(cls, R):
+        R.ev(cls.n)
+        R.use(*cls.used)
+        for o in cls.outcomes:
+            R.outcome(o)
+        if cls.untracked:
+            R.count("nontrivial_in_deep_layers_not_kept_as_set", cls.untracked)
+
+
 def check(R, fam, v, **kw):
-    R.ev()
+    U.n += 1
     kind, d = apply_law(fam, v, **kw)
-    R.outcome((fam, kind))
-    R.use("family:" + fam, "kind:" + kind.split(":")[0])
+    U.outcomes.add((fam, kind))
+    U.used.add("family:" + fam)
     if kind.startswith("ok"):
+        U.used.add("kind:" + kind)
         h = d.get("header")
         if h is not None and h != v and not h.isalnum():
-            R.nontrivial((fam, repr(v)))
+            if U.track:
+                R.nontrivial((fam, repr(v)))
+            else:
+                U.untracked += 1
         if isinstance(h, str) and h[:1] == '"' and fam in ("quote", "list", "dict", "options"):
-            R.use("quoted")
+            U.used.add("quoted")
             if "\\" in h:
-                R.use("escaped")
+                U.used.add("escaped")
         return True
+    U.used.add("kind:" + kind.split(":")[0])
     R.violation(f"{fam}:{kind}", {"kind": "law", "family": fam, "value": v, "failure": kind, "detail": d,
                                   "lenient_none": bool(kw.get("lenient_none")), "ambiguous": bool(kw.get("ambiguous"))})
     return False
@@ -309,9 +366,9 @@ def cc_domain(kind):
             out.append((n, True))
             continue
         if typ is int:
-            vals = [0, 1, 3600, 2 ** 31]
+            vals = [0, 1, 3600, 2 ** 31, -1]
         else:
-            vals = ["f", "a, b", 'q"x', ""]
+            vals = ["f", "a, b", 'q"x', "", "a=b", "set-cookie, x-y", "\\"]
         if empty is True:
             vals.append(True)
         for x in vals:
@@ -408,36 +465,114 @@ SCHEMES = ["digest", "bearer", "custom", "basic"]
 CSP_D = ["default-src", "script-src", "img-src", "sandbox"]
 CSP_V = ["'self'", "a b", "*", "https://x.y 'unsafe-inline'", "allow-forms"]
 
-RAW_A = ["a", "B", " ", '"', "\\", ",", ";", "=", "k=", "W/", "*", "\xe9", "%22", '"a"']
+CSP_V2 = ["'self'", "a b", "*", "https://x.y 'unsafe-inline'", "'nonce-abc=' 'sha256-a/b+c='", "data: blob:", "a,b", "'none'"]
+YEARS_FULL = (2024, 1900, 2000, 2100, 1999)
+
+
+def csp_directives():
+    """every directive ContentSecurityPolicy has a typed property for (key read from the property closure)"""
+    out = []
+    for n in sorted(dir(ContentSecurityPolicy)):
+        p = getattr(ContentSecurityPolicy, n, None)
+        if isinstance(p, property) and p.fget.__closure__:
+            cl = dict(zip(p.fget.__code__.co_freevars, (c.cell_contents for c in p.fget.__closure__)))
+            if "key" in cl:
+                out.append(cl["key"])
+    if len(out) < 20:
+        raise core.Broken(f"only {len(out)} CSP directive properties discovered")
+    return out
+
+
+RAW_A = ["a", "B", " ", '"', "\\", ",", ";", "=", "k=", "W/", "*", "\xe9", "%22", '"a"',
+         "k*=", "UTF-8''", "%C3%A9", "k*0=", ";k*1=", "iso-8859-1'en'", "%FF", "\\\""]
+CRIT = ["a", " ", '"', "\\", ",", ";", "=", "\xe9"]
+DEEP_KINDS = {"strN", "strcrit", "pairs33", "triples2", "raw-deep", "auth-deep", "etag-single-deep", "rawg-deep"}
+
+# raw header grammars: each parser's own tokens glued the way real headers glue them
+RAWG = {
+    "range": ["bytes=", "items=", "BYTES =", "0-1", "2-", "-3", ",", ", ", "5-9", "0-0", "1-1", " "],
+    "content-range": ["bytes ", "items ", "0-1", "0-4", "/", "*", "2", "5", " ", "-"],
+    "date": ["Mon, ", "Sun, ", "01 ", "29 ", "Jan ", "Feb ", "2024 ", "1994 ", "94 ", "00:00:00 ", "23:59:59 ", "GMT",
+             "+0100", "-0800", "Sunday, 06-Nov-94 08:49:37 GMT", "Sun Nov  6 08:49:37 1994", "UT", "EST", "Z", "-0000"],
+    "age": ["0", "1", "9", " ", "-", "+", "_"],
+    "if-range": ['"a"', 'W/"a"', '"', "a", "W/", "Mon, 01 Jan 2024 00:00:00 GMT", "01 Jan 2024", " ", ",", "00:00:00"],
+    "auth": ["Basic ", "Digest ", "Bearer ", "basic ", "QTpi", "YTo=", "w6k6w6k=", "k=", "realm=", "v", '"a b"', ", ", ",",
+             "=", "abc", " ", "nonce"],
+    "cache-control": ["max-age=", "max-stale", "no-cache", "private", "public", "no-store", "s-maxage=", "=", "5", "-1", "05",
+                      '"a, b"', ", ", ",", "x", "min-fresh="],
+    "csp": ["default-src ", "script-src ", "sandbox", "'self'", " ", ";", "; ", "*", "a", "img-src"],
+}
 
 
 def units(tier):
     T = tier == "thorough"
     us = []
+    # deep layers first (the longest units)
+    if T:
+        nA = len(A)
+        for i in range(nA):
+            for j in range(nA):
+                us.append(("strN", 5, i, j))
+        for i in range(len(CRIT)):
+            for j in range(len(CRIT)):
+                us.append(("strcrit", 6, i, j))
+                us.append(("strcrit", 7, i, j))
+        n3 = len(S(3))
+        for i in range(0, n3, 6):
+            us.append(("pairs33", i, min(n3, i + 6)))
+        n2 = len(S(2))
+        for i in range(0, n2, 2):
+            us.append(("triples2", i, min(n2, i + 2)))
+        for i in range(0, n2, 4):
+            us.append(("auth-deep", i, min(n2, i + 4)))
+        for i in range(0, n3, 200):
+            us.append(("etag-single-deep", i, min(n3, i + 200)))
+        for i in range(len(RAW_A)):
+            for j in range(len(RAW_A)):
+                us.append(("raw-deep", i, j))
+        for g, atoms in RAWG.items():
+            for i in range(len(atoms)):
+                for j in range(len(atoms)):
+                    us.append(("rawg-deep", g, i, j))
     n3 = len(S(3))
     step = 200
     for i in range(0, n3, step):
         us.append(("str", i, min(n3, i + step)))
+    for i in range(len(A)):
+        us.append(("str4", i))
+    for i in range(len(CRIT)):
+        us.append(("strcrit5", i))
     for lo in range(0, 0x10000, 0x800):
         us.append(("codepoints", lo, lo + 0x800))
     us.append(("codepoints-astral",))
     n2 = len(S(2))
     for i in range(0, n2, 8):
         us.append(("pairs", i, min(n2, i + 8)))
+    for i in range(0, n3, 100):
+        us.append(("pairs31", i, min(n3, i + 100)))
     us.append(("triples",))
     for i in range(len(KEYS)):
         us.append(("dicts", i))
     for i in range(0, 1 << len(ETAG_T), 16):
         us.append(("etags", i, i + 16))
+    us.append(("etag-single",))
     for i in range(4):
         us.append(("ranges", i))
     us.append(("content-ranges",))
     us.append(("if-range",))
-    us.append(("cache-control", "Request"))
-    us.append(("cache-control", "Response"))
+    for w in ("Request", "Response"):
+        us.append(("cache-control", w))
+        n = len(cc_domain(w))
+        for i in range(n):
+            us.append(("cache-control3", w, i, T))
     us.append(("csp",))
+    for i in range(len(csp_directives())):
+        us.append(("csp2", i, T))
     for y in YEARS:
         us.append(("dates", y))
+    for y in (YEARS_FULL if T else YEARS_FULL[:2]):
+        for mo in range(1, 13):
+            us.append(("dates-days", y, mo, T))
     us.append(("dates-offsets",))
     us.append(("ages",))
     for i in range(len(BASIC_A) + 1):
@@ -447,10 +582,10 @@ def units(tier):
     for i in range(len(PARAM_V)):
         us.append(("auth-params", i))
     for i in range(len(RAW_A)):
-        us.append(("raw", i, 4 if T else 3))
-    if T:
-        for i in range(len(A)):
-            us.append(("str4", i))
+        us.append(("raw", i, 3))
+    for g, atoms in RAWG.items():
+        for i in range(len(atoms)):
+            us.append(("rawg", g, i, 4 if g in ("content-range", "age", "csp") else 3))
     return us
 
 
@@ -471,6 +606,14 @@ def strings_battery(R, v):
 
 
 def run_unit(unit, R, tier):
+    U.reset(track=unit[0] not in DEEP_KINDS)
+    try:
+        _run_unit(unit, R, tier)
+    finally:
+        U.flush(R)
+
+
+def _run_unit(unit, R, tier):
     kind = unit[0]
     if kind == "str":
         for v in S(3)[unit[1]:unit[2]]:
@@ -486,6 +629,162 @@ def run_unit(unit, R, tier):
             check(R, "dict", {"k": v})
             if _opt_ok(v):
                 check(R, "options", ("x/y", {"k": v}))
+        return
+    if kind == "strN":
+        _k, n, i, j = unit
+        head = A[i] + A[j]
+        for t in itertools.product(A, repeat=n - 2):
+            v = head + "".join(t)
+            check(R, "quote", v)
+            check(R, "list", [v])
+            check(R, "dict", {"k": v})
+            if _opt_ok(v):
+                check(R, "options", ("x/y", {"k": v}))
+        return
+    if kind in ("strcrit", "strcrit5"):
+        if kind == "strcrit":
+            _k, n, i, j = unit
+            head, rest = CRIT[i] + CRIT[j], n - 2
+        else:
+            head, rest = CRIT[unit[1]], 4
+        for t in itertools.product(CRIT, repeat=rest):
+            v = head + "".join(t)
+            check(R, "quote", v)
+            check(R, "list", [v])
+            check(R, "dict", {"k": v})
+            check(R, "options", ("x/y", {"k": v}))
+            check(R, "set", [v])
+        U.used.add(kind)
+        return
+    if kind in ("pairs33", "pairs31"):
+        s3 = S(3)
+        others = s3 if kind == "pairs33" else S(1)
+        for v in s3[unit[1]:unit[2]]:
+            for w in others:
+                check(R, "list", [v, w])
+                check(R, "dict", {"k": v, "Key2": w})
+                if _opt_ok(v) and _opt_ok(w):
+                    check(R, "options", ("form-data", {"k": v, "key2": w}))
+                if kind == "pairs31":
+                    check(R, "list", [w, v])
+                    check(R, "dict", {"k": w, "Key2": v})
+                    if _opt_ok(v) and _opt_ok(w):
+                        check(R, "options", ("form-data", {"k": w, "key2": v}))
+        U.used.add(kind)
+        return
+    if kind == "triples2":
+        s2, s1 = S(2), S(1)
+        for a in s2[unit[1]:unit[2]]:
+            for b in s2:
+                for c in s1:
+                    for t in ((a, b, c), (a, c, b), (c, a, b)):
+                        check(R, "list", list(t))
+                        if _opt_ok(a) and _opt_ok(b) and _opt_ok(c):
+                            check(R, "options", ("form-data", {"name": t[0], "filename": t[1], "k": t[2]}))
+        U.used.add(kind)
+        return
+    if kind == "auth-deep":
+        s2 = S(2)
+        for v1 in s2[unit[1]:unit[2]]:
+            for v2 in s2:
+                for typ in ("digest", "custom"):
+                    check(R, "authorization", ("A", typ, {"realm": v1, "nonce": v2}, None))
+                    check(R, "www-authenticate", ("W", typ, {"realm": v1, "x-y": v2}, None))
+            for v2 in S(1):
+                for v3 in S(1) + [None]:
+                    check(R, "authorization", ("A", "custom", {"k": v1, "realm": v2, "qop": v3}, None))
+                    check(R, "www-authenticate", ("W", "bearer", {"qop": v3, "k": v1, "realm": v2}, None))
+                    if v3 is not None:
+                        check(R, "www-authenticate", ("W", "digest", {"qop": v3, "opaque": v1, "algorithm": v2}, None))
+        U.used.add(kind)
+        return
+    if kind in ("etag-single", "etag-single-deep"):
+        vals = S(2) if kind == "etag-single" else S(3)[unit[1]:unit[2]]
+        for e in vals:
+            if not e or '"' in e:
+                continue
+            for weak in (False, True):
+                check(R, "etag-single", (e, weak))
+            amb = stdlib_reads_as_date(http.quote_etag(e))
+            check(R, "if-range", ("etag", e), ambiguous=amb)
+        if kind == "etag-single":
+            for e in ETAG_T:
+                check(R, "etag-single", (e, False))
+                check(R, "etag-single", (e, True))
+        U.used.add("etag-single")
+        return
+    if kind == "cache-control3":
+        _k, which, i, full = unit
+        fam = f"cache-control[{which}]"
+        dom = cc_domain(which)
+        a = dom[i]
+        for b in dom:
+            if b[0] == a[0]:
+                continue
+            for c in (dom if full else dom[::3]):
+                if c[0] in (a[0], b[0]):
+                    continue
+                check(R, fam, (which, (a, b, c)))
+        U.used.add("cache-control3")
+        return
+    if kind == "csp2":
+        _k, i, full = unit
+        ds_ = csp_directives()
+        d1 = ds_[i]
+        for v1 in CSP_V2:
+            check(R, "csp", ((d1, v1),))
+            for d2 in ds_:
+                if d2 == d1:
+                    continue
+                for v2 in (CSP_V2 if full else CSP_V2[:3]):
+                    check(R, "csp", ((d1, v1), (d2, v2)))
+            if full:
+                for d2, d3 in itertools.permutations([d for d in CSP_D if d != d1], 2):
+                    for v2 in CSP_V2[:3]:
+                        check(R, "csp", ((d1, v1), (d2, v2), (d3, v1)))
+        U.used.add("csp2")
+        return
+    if kind == "dates-days":
+        _k, y, mo, full = unit
+        zones = (None, 0, 19800, -28800, 50400, -43200) if full else (None, -28800)
+        for d in range(1, 32):
+            for (h, mi, sec) in TIMES:
+                for off in zones:
+                    t = (y, mo, d, h, mi, sec, off)
+                    if date_valid(t):
+                        check(R, "date", t)
+                        if d in (1, 28, 29) and off in (None, -28800):
+                            check(R, "if-range", ("date", t))
+            try:
+                dtm.date(y, mo, d)
+            except ValueError:
+                continue
+            check(R, "date-object", (y, mo, d))
+        U.used.add("dates-days")
+        return
+    if kind in ("rawg", "rawg-deep"):
+        if kind == "rawg":
+            _k, g, i, depth = unit
+            heads = [(RAWG[g][i], depth - 1)]
+            lo = 0
+        else:
+            _k, g, i, j = unit
+            deep = 5 if g in ("content-range", "age", "csp", "date") else 4
+            heads = [(RAWG[g][i] + RAWG[g][j], deep - 2)]
+            lo = deep - 2          # only the new layer (shallower ones are in the quick units)
+            if g == "date":
+                lo = 2             # quick has depth 3 for dates: layers 4 and 5 here
+        for head, rest in heads:
+            for k in range(lo, rest + 1):
+                for t in itertools.product(RAWG[g], repeat=k):
+                    raw_grammar(R, g, head + "".join(t))
+        U.used.add("rawg:" + g)
+        return
+    if kind == "raw-deep":
+        _k, i, j = unit
+        head = RAW_A[i] + RAW_A[j]
+        for t in itertools.product(RAW_A, repeat=2):
+            raw_one(R, head + "".join(t))
         return
     if kind == "inject":
         # values that look like the syntax of the header they are embedded in: a separator followed by
@@ -598,6 +897,7 @@ def run_unit(unit, R, tier):
         for t in date_grid():
             if t[0] in (1970, 2024) and t[1] in (1, 2, 12) and date_valid(t):
                 check(R, "if-range", ("date", t))
+        check(R, "if-range", ("none", None))
         return
     if kind == "cache-control":
         which = unit[1]
@@ -636,6 +936,7 @@ def run_unit(unit, R, tier):
         for n in (0, 1, 59, 60, 86400, 2 ** 31, 10 ** 9):
             check(R, "age", ("int", n))
             check(R, "age", ("td", n))
+        check(R, "age", ("none", None))
         return
     if kind == "basic":
         users = [u for u in gen.strings(BASIC_A, 2) if ":" not in u]
@@ -689,6 +990,7 @@ def _etags_expect(v):
 
 # expectations stated independently of the object under test (default: view(build(v)))
 EXPECT = {
+    "csp": _csp_expect,
     "cache-control[Request]": _cc_expect,
     "cache-control[Response]": _cc_expect,
     "etags": _etags_expect,
@@ -700,7 +1002,9 @@ EXPECT = {
     "dict": lambda v: tuple(v.items()),
     "options": lambda v: (v[0], tuple(v[1].items())),
     "timestamp": lambda v: dtm.datetime.fromtimestamp(int(v), dtm.timezone.utc),
-    "age": lambda v: dtm.timedelta(seconds=v[1]),
+    "age": lambda v: None if v[1] is None else dtm.timedelta(seconds=v[1]),
+    "etag-single": lambda v: (v[0], bool(v[1])),
+    "date-object": lambda v: dtm.datetime(v[0], v[1], v[2], tzinfo=dtm.timezone.utc),
     "range": lambda v: (v[0], [tuple(r) for r in v[1]]),
     "content-range": lambda v: tuple(v),
 }
@@ -719,33 +1023,150 @@ def raw_normal_form(R, first, depth):
     head = RAW_A[first]
     for k in range(0, depth):
         for t in itertools.product(RAW_A, repeat=k):
-            h = head + "".join(t)
-            # list
-            p = http.parse_list_header(h)
-            if all(_in_domain_str(x) for x in p):
-                check(R, "list", p)
-                R.use("raw-list")
-            # dict: keys must be tokens without '*' to be in the documented domain
-            d = http.parse_dict_header(h)
-            if d and all(_TOKEN.match(k_) and "*" not in k_ for k_ in d) and any(v is not None for v in d.values()):
-                check(R, "dict", d)
-                R.use("raw-dict")
-            # set
-            hs = http.parse_set_header(h)
-            check(R, "set", list(hs))
-            # options
-            val, opts = http.parse_options_header("x/y;" + h)
-            if opts and all(k_ and "*" not in k_ for k_ in opts) and all(_opt_ok(v) for v in opts.values()):
-                check(R, "options", ("x/y", opts))
-                R.use("raw-options")
-            # etags: parsed tags without a quote inside and non-empty are in the documented domain
-            e = http.parse_etags(h)
-            allt = e.as_set(include_weak=True)
-            if all(x and '"' not in x for x in allt):
-                strong = tuple(sorted(e.as_set()))
-                weak = tuple(sorted(x for x in allt if e.is_weak(x)))
-                check(R, "etags", (strong, weak, bool(e.star_tag)))
-                R.use("raw-etags")
+            raw_one(R, head + "".join(t))
+
+
+def raw_one(R, h):
+    """Normal form on raw text: parse h; if the parsed value lies in the documented domain it must survive dump + parse."""
+    p = http.parse_list_header(h)
+    if all(_in_domain_str(x) for x in p):
+        check(R, "list", p)
+        U.used.add("raw-list")
+    # dict: keys must be tokens without '*' to be in the documented domain (key*=charset'lang'value parses to key)
+    d = http.parse_dict_header(h)
+    if d and all(_TOKEN.match(k_) and "*" not in k_ for k_ in d) and any(v is not None for v in d.values()):
+        check(R, "dict", d)
+        U.used.add("raw-dict")
+        if "*=" in h:
+            U.used.add("raw-dict-rfc2231")
+    hs = http.parse_set_header(h)
+    check(R, "set", list(hs))
+    val, opts = http.parse_options_header("x/y;" + h)
+    if opts and all(k_ and "*" not in k_ for k_ in opts) and all(_opt_ok(v) for v in opts.values()):
+        check(R, "options", ("x/y", opts))
+        U.used.add("raw-options")
+        if "*=" in h or "*0" in h or "*1" in h:
+            U.used.add("raw-options-rfc2231")
+    e = http.parse_etags(h)
+    allt = e.as_set(include_weak=True)
+    if all(x and '"' not in x for x in allt):
+        strong = tuple(sorted(e.as_set()))
+        weak = tuple(sorted(x for x in allt if e.is_weak(x)))
+        check(R, "etags", (strong, weak, bool(e.star_tag)))
+        U.used.add("raw-etags")
+    et, weak = http.unquote_etag(h)
+    if et and '"' not in et:
+        check(R, "etag-single", (et, weak))
+
+
+_TOKEN68 = re.compile(r"[A-Za-z0-9\-._~+/]+=*\Z")
+_CANON_INT = re.compile(r"-?(0|[1-9][0-9]*)\Z")
+
+
+def _dt_tuple(x):
+    off = x.utcoffset()
+    return (x.year, x.month, x.day, x.hour, x.minute, x.second, None if off is None else int(off.total_seconds()))
+
+
+def _auth_value(cls, p):
+    """(cls, type, params, token) if the parsed credentials lie in the documented domain, else None."""
+    if p is None or not p.type or not _TOKEN.match(p.type) or p.type != p.type.lower():
+        return None
+    if p.token is not None:
+        if not _TOKEN68.match(p.token) or p.parameters:
+            return None
+        return (cls, p.type, None, p.token)
+    params = dict(p.parameters)
+    if not params or not any(isinstance(v, str) for v in params.values()):
+        return None
+    for k, v in params.items():
+        if not _TOKEN.match(k) or "*" in k or not (v is None or _in_domain_str(v)):
+            return None
+        if v is None and cls == "W" and p.type == "digest":
+            return None
+    if p.type == "basic" and cls == "A":
+        if set(params) != {"username", "password"} or ":" in params["username"]:
+            return None
+    return (cls, p.type, params, None)
+
+
+def _cc_value(which, p):
+    props = _cc_props(CC[which])
+    by_key = {cl["key"]: (n, cl) for n, cl in props.items()}
+    items = []
+    for k, v in p.items():
+        if k not in by_key:
+            return None
+        n, cl = by_key[k]
+        if cl["type"] is bool:
+            if v is not None:
+                return None
+            items.append((n, True))
+        elif v is None:
+            if cl["empty"] is not True:
+                return None
+            items.append((n, True))
+        elif cl["type"] is int:
+            if not _CANON_INT.match(v) or v == "-0":
+                return None
+            items.append((n, int(v)))
+        else:
+            items.append((n, v))
+    return (which, tuple(items))
+
+
+def raw_grammar(R, g, h):
+    """Normal form on raw headers of one grammar: whatever the parser accepts must be a fixed point of dump + parse."""
+    if g == "range":
+        p = http.parse_range_header(h)
+        if p is not None and p.ranges:
+            check(R, "range", (p.units, [tuple(x) for x in p.ranges]))
+            U.used.add("rawg-hit:range")
+    elif g == "content-range":
+        p = http.parse_content_range_header(h)
+        if p is not None:
+            check(R, "content-range", (p.units, p.start, p.stop, p.length))
+            U.used.add("rawg-hit:content-range")
+    elif g == "date":
+        p = http.parse_date(h)
+        if p is not None:
+            t = _dt_tuple(p)
+            if 1 <= t[0] <= 9999 and date_valid(t):
+                check(R, "date", t)
+                U.used.add("rawg-hit:date")
+    elif g == "age":
+        p = http.parse_age(h)
+        if p is not None:
+            check(R, "age", ("td", int(p.total_seconds())))
+            U.used.add("rawg-hit:age")
+    elif g == "if-range":
+        p = http.parse_if_range_header(h)
+        if p.date is not None:
+            t = _dt_tuple(p.date)
+            if date_valid(t):
+                check(R, "if-range", ("date", t))
+                U.used.add("rawg-hit:if-range-date")
+        elif p.etag is not None and '"' not in p.etag:
+            check(R, "if-range", ("etag", p.etag), ambiguous=stdlib_reads_as_date(http.quote_etag(p.etag)))
+            U.used.add("rawg-hit:if-range-etag")
+    elif g == "auth":
+        for cls, c in (("A", Authorization), ("W", WWWAuthenticate)):
+            v = _auth_value(cls, c.from_header(h))
+            if v is not None:
+                check(R, "authorization" if cls == "A" else "www-authenticate", v)
+                U.used.add("rawg-hit:auth")
+    elif g == "cache-control":
+        for which in CC:
+            p = http.parse_cache_control_header(h, None, CC[which])
+            v = _cc_value(which, p) if p else None
+            if v is not None and v[1]:
+                check(R, f"cache-control[{which}]", v)
+                U.used.add("rawg-hit:cache-control")
+    elif g == "csp":
+        p = http.parse_csp_header(h)
+        if p and all(v and ";" not in v and k and " " not in k for k, v in p.items()):
+            check(R, "csp", tuple(p.items()))
+            U.used.add("rawg-hit:csp")
 
 
 # ------------------------------------------------------------------ finalize / replay
@@ -753,14 +1174,23 @@ def raw_normal_form(R, first, depth):
 def finalize(R, tier):
     need = {"family:" + f for f in CODECS} | {"quoted", "escaped", "codepoints", "range-ascending", "range-unordered",
                                               "ifrange-ambiguous", "ifrange-etag", "tz-naive", "tz-aware", "raw-list",
-                                              "raw-dict", "raw-options", "raw-etags", "kind:ok", "kind:ok-refused"}
+                                              "raw-dict", "raw-options", "raw-etags", "kind:ok", "kind:ok-refused", "inject", "strcrit5",
+                                              "pairs31", "etag-single", "cache-control3", "csp2", "dates-days",
+                                              "raw-dict-rfc2231", "raw-options-rfc2231", "rawg-hit:range",
+                                              "rawg-hit:content-range", "rawg-hit:date", "rawg-hit:age",
+                                              "rawg-hit:if-range-date", "rawg-hit:if-range-etag", "rawg-hit:auth",
+                                              "rawg-hit:cache-control", "rawg-hit:csp"}
+    if tier == "thorough":
+        need |= {"strcrit", "pairs33", "triples2", "auth-deep"}
     missing = need - R.used
     if missing:
         raise core.Broken(f"vacuity: never exercised {sorted(missing)}")
     if len(R.sets.get("nontrivial", ())) < 20000:
         raise core.Broken("vacuity: too few values needed quoting / escaping / conversion")
-    return {"bound": "strings <= 3 atoms (4 thorough), lists <= 3, dicts <= 2, ranges <= 3 + tail over 0..5, raw headers <= "
-                     + ("4" if tier == "thorough" else "3") + " atoms",
+    return {"bound": ("strings <= 4 atoms (5 over the 8 critical atoms), pairs 2x2 and 3x1, triples 1x1x1, raw headers <= 3 "
+                      "atoms, grammar headers <= 3-4 atoms" if tier == "quick" else
+                      "strings <= 5 atoms (7 over the 8 critical atoms), pairs 3x3, triples 2x2x1, raw headers <= 4 atoms, "
+                      "grammar headers <= 4-5 atoms") + ", lists <= 3, dicts <= 3, ranges <= 3 + tail over 0..5",
             "exhaustive": True, "families": len(CODECS)}
 
 
@@ -797,6 +1227,8 @@ def _thaw(fam, v):
         return tuple(v)
     if fam == "dict":
         return dict(v)
+    if fam in ("etag-single", "date-object"):
+        return tuple(v)
     if fam == "age":
         return tuple(v)
     return v
